@@ -112,7 +112,12 @@ def step (st : St) (ws : List String) : St × String :=
       let (y'', crash) := match op with
         | .accept _ | .fin => autoDeq y'
         | _ => (y', "")
-      ({ y := some y'' }, render y.s y''.s (fRes s' r) (objInfo ++ crash ++ (if okE then "" else " !eng")))
+      let herr := match op with
+        | .health => if s'.crashed then "" else
+          let (e, nr, un) := healthErr s'
+          s!" err={b01 e} notready={b01 nr} unres={b01 un}"
+        | _ => ""
+      ({ y := some y'' }, render y.s y''.s (fRes s' r) (herr ++ objInfo ++ crash ++ (if okE then "" else " !eng")))
     | _, _ => (st, "bad-op")
 
 def machine : Machine := { σ := St, init := {}, step := step }
